@@ -11,6 +11,7 @@ from symfc.utils.cutoff_tools import FCCutoff
 from symfc.utils.matrix_tools import permutation_dot_lat_trans
 from symfc.utils.permutation_tools import get_combinations
 from symfc.utils.solver_funcs import get_batch_slice
+from symfc.utils._verif_hooks import verif_int
 from symfc.utils.utils import get_indep_atoms_by_lat_trans
 from symfc.utils.utils_O4 import get_atomic_lat_trans_decompr_indices_O4
 
@@ -249,6 +250,7 @@ def optimize_batch_size_sum_rules_O4(natom: int, n_batch: Optional[int] = None):
             n_batch = natom // min(natom, 8)
         else:
             n_batch = natom // 4
+        n_batch = min(natom, verif_int("SYMFC_VERIF_SUMRULE_NBATCH", n_batch))
 
     if n_batch > natom:
         raise ValueError("n_batch must be smaller than N.")
